@@ -16,7 +16,7 @@ import (
 	"verif/internal/ref"
 )
 
-var enumPool = []string{`null`, `true`, `0`, `1`, `1.5`, `256`, `9007199254740992`, `9007199254740993`, `"a"`, `"1"`, `[1]`, `[1,2]`, `{"a":1}`, `{"a":null}`, `[]`, `{}`, `{"a":1,"b":2}`, `9223372036854775808`}
+var enumPool = []string{`null`, `true`, `0`, `1`, `1.5`, `256`, `9007199254740992`, `9007199254740993`, `"a"`, `"1"`, `[1]`, `[1,2]`, `{"a":1}`, `{"a":null}`, `[]`, `{}`, `{"a":1,"b":2}`, `9223372036854775808`, `{"b":null}`, `{"b":1}`, `{"id":1,"parent":null}`, `{"id":1,"owner":"x"}`, `[null]`, `[{"a":null}]`, `[{"b":1}]`}
 
 // Member is one element of the uniqueItems pool.
 type Member struct {
@@ -83,7 +83,7 @@ func UniquePool() []Member {
 
 func Run(r *ev.Run) {
 	thorough := r.Tier == "thorough"
-	r.Rule("(i) enum lists of length 0..2 (thorough 3) and const over an 18-value pool, built by Unmarshal and as Go literals in canonical and in two alternative exact representations, x every pool value in every G-rep representation (<=1 deviating node): pass iff R2-equal to a member; " +
+	r.Rule("(i) enum lists of length 0..2 (thorough 3) and const over a 25-value pool, built by Unmarshal and as Go literals in canonical and in two alternative exact representations, x every pool value in every G-rep representation (<=1 deviating node): pass iff R2-equal to a member; " +
 		"(ii) uniqueItems on every []any of length 0..3 (thorough 4; quick length 4 over a 12-element sub-pool) over a 25-element pool with equal-but-not-identical members (1 / json.Number 1.0 / 1e0 / int8(1); permuted and differently typed maps; []any / []int / [1]int; 2^63 as uint64 and float64; 256 as float64 and json.Number; nil and nil pointer): pass iff no two elements are R2-equal. Every call draws a fresh hash seed; each array is validated 3 times. Non-trivial = every case (distinct by construction)")
 	r.Assume("R2 canonical equality is the oracle; the hash-family exploration of the seed quantifier runs in the instrumented build (C12 env part)")
 	vals := gen.Vals(enumPool...)
